@@ -483,6 +483,11 @@ func main() {
 		nMulti *= *scale
 		corpus := loadCorpus(*repo)
 		if *prop == "C15" {
+			nsc := 12
+			if *tier == "thorough" {
+				nsc = 120
+			}
+			h.muxerStream(*seed, nsc**scale)
 			for i, b := range corpus {
 				h.bytesOnly(b, fmt.Sprintf("corpus-%d", i))
 			}
